@@ -129,8 +129,10 @@ EvContextMap ==
   /\ IsEvent("context_map")
   /\ LET r == ApplyEntries(NewHashMap, E.entries, 1, NoErr) IN
      /\ ResMatches(IF r.err.e = "" THEN PatVal(VEmpty) ELSE PatErr(r.err), E.res, TRUE)
-     /\ SameVars(r.ctx, E.post)
-     /\ ctxs' = [ctxs EXCEPT ![E.slot] = r.ctx]
+     \* the creating form `context_map! { .. }` hands the context out only on success (`lost`: nothing to compare)
+     /\ IF "lost" \in DOMAIN E
+        THEN r.err.e # "" /\ ctxs' = [ctxs EXCEPT ![E.slot] = Absent]
+        ELSE SameVars(r.ctx, E.post) /\ ctxs' = [ctxs EXCEPT ![E.slot] = r.ctx]
   /\ UNCHANGED log
 
 \* ---- executions of /repo's own tests (hook traces): a tree, the context before (event ctx), the user-function
